@@ -18,8 +18,9 @@ import (
 )
 
 type c19 struct {
-	findings []harness.Finding
-	byRule   map[string]int
+	findings            []harness.Finding
+	byRule              map[string]int
+	supersededDelivered int
 }
 
 func (c *c19) bad(rule, d string) {
@@ -101,6 +102,11 @@ type armRec struct {
 // script runs one random Register/Stop/read script against the real timer trigger; the harness is the
 // only reader of the election channel, so it decides when (and whether) a trigger can be handed over.
 func (c *c19) script(seed int64, base time.Duration, record *[]string) (received, judged int) {
+	defer func() {
+		if p := recover(); p != nil {
+			c.bad("timer-api-panics", fmt.Sprintf("seed=%d base=%v: a Register / Stop / trigger-action call on the timer panicked: %v", seed, base, p))
+		}
+	}()
 	r := rand.New(rand.NewSource(seed))
 	et := Electiontrigger.NewTimerBasedElectionTrigger(base, nil)
 	var mu sync.Mutex
@@ -156,6 +162,11 @@ func (c *c19) script(seed int64, base time.Duration, record *[]string) (received
 			return
 		}
 		m.delivered++
+		if m.superseded {
+			// the arming had been superseded (or stopped) by a call that returned before this read started
+			c.supersededDelivered++
+			c.bad("trigger-of-a-superseded-arming-delivered", fmt.Sprintf("seed=%d base=%v: trigger %s read from the channel after the timer had been re-armed for another pair or stopped (the call had returned before the read began)", seed, base, tr.Hv))
+		}
 		if el := now.Sub(m.at); el < et.CalcTimeout(primitives.View(m.v)) {
 			c.bad("trigger-before-timeout", fmt.Sprintf("seed=%d base=%v: trigger %s after %v, timeout is %v", seed, base, tr.Hv, el, et.CalcTimeout(primitives.View(m.v))))
 		}
@@ -173,6 +184,10 @@ func (c *c19) script(seed int64, base time.Duration, record *[]string) (received
 		switch r.Intn(5) {
 		case 0, 1: // register
 			h, v := uint64(1+r.Intn(2)), uint64(r.Intn(4))
+			if r.Intn(6) == 0 {
+				// a view whose timeout is saturated (or simply far beyond this script): the timer is armed and never fires here
+				v = []uint64{40, 63, 64, 200, 1 << 32, ^uint64(0)}[r.Intn(6)]
+			}
 			mu.Lock()
 			same := cur != nil && cur.h == h && cur.v == v && !cur.superseded
 			var a *armRec
@@ -213,7 +228,7 @@ func (c *c19) script(seed int64, base time.Duration, record *[]string) (received
 	mu.Lock()
 	cu := cur
 	mu.Unlock()
-	if cu != nil && cu.delivered == 0 {
+	if cu != nil && cu.delivered == 0 && et.CalcTimeout(primitives.View(cu.v)) < 5*time.Second {
 		limit := et.CalcTimeout(primitives.View(cu.v)) + 10*time.Second
 		deadline := time.After(limit)
 	wait:
@@ -231,6 +246,16 @@ func (c *c19) script(seed int64, base time.Duration, record *[]string) (received
 		}
 	}
 	et.Stop()
+	mu.Lock()
+	for _, a := range arms {
+		a.superseded = true
+	}
+	mu.Unlock()
+	select {
+	case tr := <-et.ElectionChannel():
+		onTrigger(tr, time.Now())
+	case <-time.After(6 * base):
+	}
 	for _, x := range held {
 		runAction(x.tr, x.m, true)
 	}
@@ -240,6 +265,11 @@ func (c *c19) script(seed int64, base time.Duration, record *[]string) (received
 // absentReader: the timer is armed and nobody reads the election channel for `absence` (far beyond the timeout); no
 // Register / Stop happens meanwhile. The trigger must still be delivered, once, when the reader comes back.
 func (c *c19) absentReader(seed int64, base, absence time.Duration) (ok bool) {
+	defer func() {
+		if p := recover(); p != nil {
+			c.bad("timer-api-panics", fmt.Sprintf("seed=%d base=%v (absent reader): %v", seed, base, p))
+		}
+	}()
 	r := rand.New(rand.NewSource(seed))
 	et := Electiontrigger.NewTimerBasedElectionTrigger(base, nil)
 	h, v := uint64(1+r.Intn(3)), uint64(r.Intn(3))
